@@ -819,9 +819,14 @@ impl MqttClientImpl {
     }
 
     fn compute_uniform_jitter_period(&self, max_nanos: u128) -> Duration {
+        // an empty range cannot be sampled
+        if max_nanos == 0 {
+            return Duration::from_nanos(0);
+        }
+
         let mut rng = rand::thread_rng();
         let uniform_nanos = rng.gen_range(0..max_nanos);
-        Duration::from_nanos(uniform_nanos as u64)
+        Duration::from_nanos(uniform_nanos.min(u64::MAX as u128) as u64)
     }
 
     pub(crate) fn advance_reconnect_period(&mut self) -> Duration {
